@@ -436,6 +436,56 @@ def _starts_guard(test, sd):
     return None
 
 
+def rule_g(model, rep):
+    """near-miss passwords must not verify: every byte of the secret reaches the digest, except the documented equivalences;
+    hashers with an `encoding` context value convert text with *that* encoding"""
+    R = "C01.g-every-byte-counts"
+    DES = "passlib.handlers.des_crypt"
+    for q in ("_bsdi_secret_to_key", "bigcrypt._calc_checksum"):
+        fn = model.func(DES, q)
+        loops = [n for n in walk_no_nested(fn) if isinstance(n, ast.While)]
+        t = ast.unparse(fn)
+        ok = len(loops) == 1 and ast.unparse(loops[0].test) == "idx < end" and "end = len(secret)" in t and "next = idx + 8" in t and "idx = next" in t and "secret[idx:next]" in t
+        rep.check(ok, R, site(DES, q), ast.unparse(loops[0].test) if loops else "<none>", "the block loop runs while idx < len(secret) in steps of 8, so a trailing partial block is consumed too",
+                  witness="a 13-byte password verifies with its 8-byte prefix (the partial last block never reaches the key)")
+    fn = model.func("passlib.handlers.mysql", "mysql323._calc_checksum")
+    loops = [n for n in walk_no_nested(fn) if isinstance(n, ast.For)]
+    white = [n for n in walk_no_nested(fn) if isinstance(n, ast.Assign) and ast.unparse(n.targets[0]) == "WHITE"]
+    wv = model.fold(model.unit("passlib.handlers.mysql"), white[0].value) if white else UNKNOWN
+    ok = len(loops) == 1 and ast.unparse(loops[0].iter) == "secret" and wv == b" \t" and any(ast.unparse(x) == "if c in WHITE:\n    continue" for x in loops[0].body)
+    rep.check(ok, R, site("passlib.handlers.mysql", "mysql323._calc_checksum"), f"for c in {ast.unparse(loops[0].iter) if loops else '?'}; WHITE={wv!r}",
+              "mysql323 walks every byte of the secret and skips only space and tab (the documented equivalence)",
+              witness="hash('mypass') verifies 'mypass\\n': newline / CR / VT / FF are ignored as well")
+    # encoding context
+    table = HandlerTable(model)
+    n = 0
+    for h in table:
+        if h.kind == "wrapper":
+            continue
+        ck = table.const(h, "context_kwds")
+        if not (isinstance(ck, tuple) and "encoding" in ck):
+            continue
+        for m in ("hash", "_calc_checksum", "raw"):
+            owner, fn = model.method(h.cref, m, required=False)
+            if fn is None or "secret" not in params(fn) or owner[0] == UH:
+                continue
+            convs = []
+            for x in walk_no_nested(fn):
+                if isinstance(x, ast.Call):
+                    name = ast.unparse(x.func)
+                    if name in ("secret.encode", "secret.upper().encode") and x.args:
+                        convs.append((x, ast.unparse(x.args[0])))
+                    elif name.split(".")[-1] in ("to_bytes", "to_native_str", "to_unicode") and x.args and ast.unparse(x.args[0]) == "secret":
+                        enc = x.args[1] if len(x.args) > 1 else next((k.value for k in x.keywords if k.arg == "encoding"), None)
+                        convs.append((x, ast.unparse(enc) if enc is not None else "<default utf-8>"))
+            for x, enc in convs:
+                n += 1
+                rep.check("encoding" in enc, R, site(owner[0], f"{owner[1]}.{m}") + f"<{h.name}>", ast.unparse(x)[:80],
+                          "a hasher that takes an `encoding` context value converts text passwords with that encoding",
+                          witness=f"{h.name}.hash('pässword', encoding='latin-1') differs from the hash of 'pässword'.encode('latin-1'): text and bytes forms of one password disagree")
+    rep.minimum(R, 5)
+
+
 def run(model, rep):
     rep.explanation = __doc__
     rep.assumptions = ["`secret` is str|bytes at _calc_checksum entry (validate_secret ran; checked by C05.b)",
@@ -449,3 +499,4 @@ def run(model, rep):
     rule_d(model, rep)
     rule_e(model, rep)
     rule_f(model, rep)
+    rule_g(model, rep)
